@@ -3,7 +3,17 @@
 #include "vp_prelude.h"
 void* malloc(unsigned long); void free(void*);
 u8 vpx___dso_handle;
+#ifdef VP_NEW_FIXED
+/* job option -DVP_NEW_FIXED=<bytes>: untyped operator new hands out blocks of one fixed size so that heap objects keep a
+ * concrete size when the requested size is a symbolic expression (e.g. the size of the element a symbolic iterator points
+ * to); larger requests are a reported model limit; accesses between the requested and the fixed size go undetected */
+void* vpx__Znwm(u64 n) {
+  if (n > VP_NEW_FIXED) { VP_CHK("model-limit:operator-new-larger-than-VP_NEW_FIXED", 0); __CPROVER_assume(0); }
+  void* p = malloc(VP_NEW_FIXED); __CPROVER_assume(p != 0); return p;
+}
+#else
 void* vpx__Znwm(u64 n) { void* p = malloc(n ? n : 1); __CPROVER_assume(p != 0); return p; }
+#endif
 void* vpx__Znam(u64 n) { void* p = malloc(n ? n : 1); __CPROVER_assume(p != 0); return p; }
 void vpx__ZdlPv(void* p) { free(p); }
 void vpx__ZdaPv(void* p) { free(p); }
